@@ -31,8 +31,8 @@ import Verif.Model.Common
   * A Go panic is `M.crash` (`Update` on an unknown id, `Remove` indexing past `sorted`).
 
   `Variant` selects which repairs of notes/C16.md are in the modelled code: `Variant.coded` is the
-  tree before the `fix:` commits e3cc9eb / 80a4538, `Variant.updateFixed` is /repo at HEAD
-  (`Update` repaired, D18 open), `Variant.fixed` has both repairs.  `current` is what the driver
+  tree before the `fix:` commits e3cc9eb / 80a4538, `Variant.updateFixed` is the tree before
+  `fix:` 2140646 (`Update` repaired, rename defect D26 open), `Variant.fixed` is /repo at HEAD.  `current` is what the driver
   runs and what the un-suffixed theorems talk about: switching it is the one-line change that
   goes with a `fix:` commit in /repo.
 -/
@@ -216,13 +216,14 @@ structure Variant where
 
 /-- the tree before the `fix:` commits e3cc9eb (D3) and 80a4538 (D2) -/
 def Variant.coded : Variant := ⟨false, false⟩
-/-- /repo at HEAD: `Update` repaired (e3cc9eb, 80a4538), provisioner rename still stale (D18) -/
+/-- the tree after e3cc9eb / 80a4538 and before `fix:` 2140646: `Update` repaired, provisioner
+    rename still leaves the admin collection keyed by the old name (D26) -/
 def Variant.updateFixed : Variant := ⟨true, false⟩
-/-- both repairs -/
+/-- /repo at HEAD: both repairs (e3cc9eb, 80a4538, 2140646) -/
 def Variant.fixed : Variant := ⟨true, true⟩
 
 /-- The code modelled by the driver and by the un-suffixed theorems: /repo as it stands. -/
-def current : Variant := Variant.updateFixed
+def current : Variant := Variant.fixed
 
 def setTy (id : Str) (t : Bool) (a : Adm) : Adm := if a.id = id then { a with super := t } else a
 
